@@ -178,7 +178,7 @@ def observe(c, a):
             probs.append("wire names %r != JSON names %r" % (sorted(wires), sorted(c["wires"])))
         for f, w in zip(fields, wires):
             idents[w] = f["name"]
-    elif c["use"].endswith("variant"):
+    elif "variant" in c["use"]:
         en = [it for it in items if it.get("kind") == "enum" and it["name"] == "T"]
         if not en:
             return "ok", {}, ["enum T not found"]
